@@ -85,12 +85,13 @@ func init() {
 }
 
 // family c09c : the causality grammar under cancellation. C01-style programs (and wide forks) on the real engine; the
-//               instance context is cancelled at a seeded moment: 0..300 µs after a task was answered (preferably
-//               the last pending one, whose token then runs to an end event), or — with the `flow.action` schedule
-//               point held — exactly between the moment a flow has taken its action and the moment it acts on it, or
-//               under perturbation of all schedule points. Recording goes on until the tracer is done (deadline);
-//               the grammar is evaluated with the cancellation traces: nothing of a flow may follow its
-//               TerminationTrace / CancellationFlowTrace.
+//
+//	instance context is cancelled at a seeded moment: 0..300 µs after a task was answered (preferably
+//	the last pending one, whose token then runs to an end event), or — with the `flow.action` schedule
+//	point held — exactly between the moment a flow has taken its action and the moment it acts on it, or
+//	under perturbation of all schedule points. Recording goes on until the tracer is done (deadline);
+//	the grammar is evaluated with the cancellation traces: nothing of a flow may follow its
+//	TerminationTrace / CancellationFlowTrace.
 func init() {
 	caseFamilies["c09c"] = &caseFamily{
 		Shard: 1, Par: 12,
